@@ -189,7 +189,7 @@ def date_header(header, rfc_section):
 #######################
 
 
-_rx_etag = re.compile(r'(?:^|\s)(W/)?"((?:\\"|.)*?)"')
+_rx_etag = re.compile(r'(?:^|[\s,])(W/)?"((?:\\"|.)*?)"')
 
 
 def parse_etag_response(value, strong=False):
